@@ -307,3 +307,30 @@ Section EofConc.
     eapply cstep_success_upto; eauto.
   Qed.
 End EofConc.
+
+(* a successful push stores exactly what its reader delivered before its first EOF *)
+Section EofStores.
+  Variable H : str -> str -> str.
+  Variable comb : bool.
+
+  Lemma push_stores_upto_eof fuel evs d :
+    (forall fixed m m', mem_push H comb fixed fuel m d (mkBase evs None) = (None, m') -> m' = (d, upto_eof evs) :: m) /\
+    (forall s s', oci_push H comb true fuel s d (mkBase evs None) = (None, s') -> s' = (d_dg d, upto_eof evs) :: s) /\
+    (forall s name path s', name <> [] -> file_push H comb true fuel s name path d evs = (None, s') ->
+       assoc_get (f_files s') path = Some (upto_eof evs)).
+  Proof.
+    split; [|split].
+    - intros fixed m m'. unfold mem_push. destruct (mem_get m d); [discriminate|].
+      destruct (read_all H comb fixed fuel (mkBase evs None) (d_dg d) (d_sz d)) as [[[e0|] buf] v] eqn:Er; [discriminate|].
+      intro E; inversion E; subst. rewrite (read_all_upto_eof H comb _ _ _ _ _ _ _ Er). reflexivity.
+    - intros s s'. unfold oci_push. destruct (negb (valid_digest (d_dg d))); [discriminate|].
+      destruct (oci_get s (d_dg d)); [discriminate|].
+      destruct (copy_buffer H comb true fuel (mkBase evs None) oci_bufsz (d_dg d) (d_sz d)) as [[[e0|] out] v] eqn:Ec; [discriminate|].
+      intro E; inversion E; subst. rewrite (copy_buffer_upto_eof H comb _ _ _ _ _ _ _ _ Ec). reflexivity.
+    - intros s name path s' Nn. unfold file_push. destruct name as [|c n0]; [congruence|].
+      destruct (name_in (c :: n0) (f_names s)); [discriminate|].
+      destruct (copy_buffer H comb true fuel (mkBase evs None) file_bufsz (d_dg d) (d_sz d)) as [[[e0|] out] v] eqn:Ec; [discriminate|].
+      intro E; inversion E; subst. simpl. rewrite str_eqb_refl.
+      rewrite (copy_buffer_upto_eof H comb _ _ _ _ _ _ _ _ Ec). reflexivity.
+  Qed.
+End EofStores.
